@@ -55,6 +55,12 @@ ResOK(c) ==
   /\ c.a = ClosestLevelWith(G, c.rn, c.rd, 1)
   /\ c.b = -1 \/ c.b \in ClosestLevels(G, c.rn, c.rd)
 
+\* --- request rectangles with an output size: [r: bbox, rn, rd, a: level or -1 (NoTiles), b: level, -1, or -2 when skipped] ---
+BBLOK(c) ==
+  /\ BBoxLevelOK(G, B4(c.r), c.rn, c.rd)
+  /\ c.a = BBoxLevelWith(G, B4(c.r), c.rn, c.rd, 1)
+  /\ c.b = -2 \/ c.b \in BBoxLevels(G, B4(c.r), c.rn, c.rd)
+
 Bad(kind, S, P(_)) == {i \in 1 .. Len(S) : ~P(S[i])}
 FirstBad(S, P(_)) == LET b == Bad("x", S, P) IN IF b = {} THEN 0 ELSE CHOOSE i \in b : \A j \in b : i <= j
 
@@ -63,7 +69,8 @@ Verdict ==
    point |-> FirstBad(Data.points, PointOK),
    tile |-> FirstBad(Data.tiles, TileOK),
    rect |-> FirstBad(Data.rects, RectOK),
-   res |-> FirstBad(Data.ress, ResOK)]
+   res |-> FirstBad(Data.ress, ResOK),
+   bbl |-> FirstBad(Data.bbls, BBLOK)]
 
 ASSUME PrintT(<<"verdict", Verdict>>)
 
